@@ -9,7 +9,7 @@ META = {
     'design_ref': 'DESIGN.md §5 C03',
     'text': 'Kernel-checked: for apk `installed`, gradle.lockfile, Gemfile.lock, dpkg `status` and requirements.txt the byte-level model of the extractor returns exactly the '
             'generated (name, version) list for every record list and every layout (record order, per-line LF/CRLF, final newline or not, any number of blank lines, comments, '
-            'unrelated fields, white space; dpkg: the fields of a stanza in any permutation, case-insensitive field names, continuation lines; requirements.txt: the core grammar name[extras] op version # comment — environment markers, per-requirement options and backslash continuations are covered by the differential stream only); for package-lock.json v1-v3, Pipfile.lock, packages.lock.json and go.mod the record loop over '
+            'unrelated fields, white space; dpkg: the fields of a stanza in any permutation, case-insensitive field names, continuation lines; requirements.txt: the core grammar name[extras] op version # comment — environment markers, per-requirement options and backslash continuations are covered by the differential stream only; requirements files that include each other with -r: over any finite path -> content map of such files the scan of a top-level file reports its pins with Locations [top] and, exactly once for every file reachable through include lines resolved against the directory of the INCLUDING file, that file\'s pins with Locations [top, file], whatever the chain depth, routes, cycles or same-named files elsewhere); for package-lock.json v1-v3, Pipfile.lock, packages.lock.json and go.mod the record loop over '
             'the DECODED document equals the comprehension (flattening, de-duplication, aliases, file:/git versions, replace directives, sections) — no layout clause is proved for the library-decoded formats, and for composer.lock, Cargo.lock and poetry.lock the loop is append/map so the Lean statements are definitional (not counted): for those seven formats the layout clauses rest on the generator/oracle stream alone. For the line formats the driver rebuilds the generator\'s records and layout as Lean Spec values, checks that Lean `render` gives the very bytes the harness wrote, decides the theorem hypotheses (wf) and takes the oracle\'s expected list from the Spec definition `installed`. The models are tied to the Go '
             'code by running both on generated files (0..40 records x layouts; thorough adds every layout of every <=3-record set) and on a malformed stream; the oracle compares the '
             "IMPLEMENTATION's (name, version) multiset with the generated package set for all twelve formats.",
@@ -22,6 +22,12 @@ THEOREMS = [
     # (a) byte-level round trips: parse (render layout records) = ok (installed records), all record lists x all layouts
     'Scalibr.Parsers.C03_apk', 'Scalibr.Parsers.C03_gradle', 'Scalibr.Parsers.C03_gemfile', 'Scalibr.Parsers.C03_dpkg',
     'Scalibr.Parsers.C03_requirements_partial',   # _partial: WF is the core grammar (no markers / options / continuations / != < > lists)
+    # requirements files that include each other (-r): over a path -> content map, the scan reports the top-level pins and, exactly once per
+    # REACHABLE file (include operands resolved against the directory of the INCLUDING file; cycles, several routes, same-named decoys), that
+    # file's pins with Locations [top, file]; _cert: the same against a checked enumeration of the reachable files (what the driver evaluates);
+    # walk_fuel_adequate: the bound of the model's work list is adequate on arbitrary contents
+    'Scalibr.Parsers.C03_requirements_tree_partial', 'Scalibr.Parsers.C03_requirements_tree_cert_partial',
+    'Scalibr.Parsers.Requirements.reachCert_iff', 'Scalibr.Parsers.C03_requirements_walk_fuel_adequate',
     # byte-to-line lemmas (bufio.Scanner / bufio.Reader.ReadLine on every LF/CRLF/final-newline layout)
     'Scalibr.Parsers.scan_unlines', 'Scalibr.Parsers.Dpkg.rlines_unlines',
     # (b) record loop over the DECODED document = comprehension, unique keys / no duplicates (no layout clause: decoder trusted)
@@ -36,8 +42,11 @@ def _names(lst):
     if lst in ('-', '?', ''):
         return out
     for e in lst.split(','):
-        n, _, v = e.partition('@')
-        out.append((binascii.unhexlify(n), binascii.unhexlify(v)))
+        t = e.split('@')
+        rec = (binascii.unhexlify(t[0]), binascii.unhexlify(t[1]) if len(t) > 1 else b'')
+        if len(t) > 2:   # reqtree: Locations
+            rec += (tuple(binascii.unhexlify(x) for x in t[2].split('/') if x),)
+        out.append(rec)
     return out
 
 
@@ -54,11 +63,17 @@ def run(ctx):
                    'overlay shims harness/overlay/extractor/filesystem/language/*/verif_export_c03.go print the document exactly as the extractor decodes it']
     ctx.assumptions = ['bytes are List Char under the Latin-1 embedding (every model function is byte-level)',
                        'lines stay below bufio.Scanner\'s 64 KiB token limit in WF (the limit itself is modelled and exercised by the malformed stream)',
-                       'requirements.txt: `-r` references are not followed (the scan input has an empty FS); environment-variable lines are ignored by design',
+                       'requirements.txt: format `requirements` scans ONE file with an empty FS (no include can be opened); format `reqtree` scans the top-level file of a generated file system '
+                       '(fstest.MapFS) and compares name, version AND Locations; only the `-r` spelling is an include for the extractor (`--requirement`, `-c`, `--constraint` lines are skipped as '
+                       '"global options other than -r": model = implementation, reported as an observation); environment-variable lines are ignored by design',
+                       'reqtree path arithmetic: the Lean `resolve` (filepath.Join(filepath.Dir(including), operand) on slash paths, incl. Clean) is validated against the Go functions by the stream, odd operands included; '
+                       'the generator computes its expected closure with package `path`, the Lean Spec checks the generator\'s list of reachable files as a certificate (`isReachCert`, theorem reachCert_iff) instead of trusting it',
                        'go.mod: the go.sum branch for go < 1.17 is outside the model (needs a sibling file)',
                        'a Gemfile.lock line of 64 KiB or more silently ends the file (scanner.Err() is never checked after the loop): outside WF, reported as an observation']
     ctx.rule = ('case = one generated file of one of the twelve formats: abstract package set (0..40 records, ecosystem-legal alphabets) x layout (record order, LF/CRLF/mixed, final newline, '
                 'blank lines, comments, unrelated fields, white space, key order / indentation for JSON and TOML), serialised by the harness\'s own encoders and read by the real Extract; '
+                'format reqtree: a file system of 1..9 requirements files that include each other (chains of depth 1..4 through sub-directories and ../, several routes, cycles, self-includes, missing targets, '
+                'same-named decoy files next to the top-level file, -r / --requirement / -c spellings), scanned through the top-level file; '
                 'plus for the five line formats a malformed stream (line soups, truncations, swapped delimiters, odd bytes, lines around 64 KiB) with expected = ?; thorough adds every layout '
                 'of every ordered subset of a 3-record set. non-trivial = a well-formed case listing >= 2 packages; distinct = distinct case lines')
     ok, _ = ctx.lean_build(['Scalibr.Properties.C03', 'drv_c03'])
@@ -122,7 +137,8 @@ def run(ctx):
         f = k.split('/')[0]
         per[f] = per.get(f, 0) + v
     ctx.extra['cases_per_format'] = per
-    ctx.extra['formats_with_byte_level_roundtrip_theorem'] = ['apk', 'gradle', 'gemfile', 'dpkg', 'requirements (_partial: core grammar, no markers / per-requirement options / continuations)']
+    ctx.extra['formats_with_byte_level_roundtrip_theorem'] = ['apk', 'gradle', 'gemfile', 'dpkg', 'requirements (_partial: core grammar, no markers / per-requirement options / continuations)',
+                                                              'reqtree (_partial: the same grammar per file + -r include lines; closure over a path -> content map)']
     ctx.extra['formats_with_record_loop_theorem_on_decoded_document'] = ['package-lock.json v1-v3', 'Pipfile.lock', 'packages.lock.json', 'go.mod']
     ctx.extra['formats_whose_loop_is_definitional'] = ['composer.lock', 'Cargo.lock', 'poetry.lock']
     ctx.extra['differential_only'] = 'byte layouts (indentation, key order, CRLF, unrelated fields) of the seven decoded formats; requirements.txt markers, hashes, continuations'
